@@ -1,10 +1,17 @@
 import WowVerif.Model.C13M2
 import WowVerif.Model.C13Anim
+import WowVerif.Model.C13Skin
 namespace Wv.Drv
 open Wv Wv.M2
 
 def c13 (toks : List String) : Option String :=
   match toks with
+  -- skin sections: header size, then element counts of the five sections (bone section in bytes) -> (count,offset) pairs and the file size
+  | ["c13skin", hdr, a, b, c, d, e] => do
+      let (na, nb, nc, nd, ne) := (← a.toNat?, ← b.toNat?, ← c.toNat?, ← d.toNat?, ← e.toNat?)
+      let r := Skin.lay (← hdr.toNat?) (Skin.sectionBytes na nb nc nd ne)
+      let pairs := (Skin.counts na nb nc nd ne).zip r.1
+      pure (" ".intercalate (pairs.map fun p => s!"{p.1},{p.2}") ++ s!" size={r.2}")
   | ["c13reloc", st, bl] => do
       let start ← st.toNat?
       let blobs ← (bl.splitOn ",").mapM fun t => match t.splitOn ":" with
